@@ -293,7 +293,7 @@ func checkC05(tier string) int {
 	groups := map[string]*violGroup{}
 	type where struct{ job, run int }
 	firstAt := map[string]where{}
-	execs, normal, rterr, buildFail, noReport, timeouts := 0, 0, 0, 0, 0, 0
+	execs, normal, rterr, buildFail, noReport, timeouts, resourceLimited := 0, 0, 0, 0, 0, 0, 0
 	fired := map[string]int{}
 	shapes := map[string]bool{}
 	var moved, inplace, reused, events int64
@@ -335,6 +335,10 @@ func checkC05(tier string) int {
 				normal++
 			case "rterror":
 				rterr++
+			case "resource_limit", "arena_exhausted":
+				// a generated program that grows without bound (a list doubled in a loop): the simulated heap gave up,
+				// what it recorded up to there is still evaluated below
+				resourceLimited++
 			}
 			pol := o.Runs[k].Policy
 			fired["place="+pol.Place]++
@@ -365,6 +369,9 @@ func checkC05(tier string) int {
 				g.Runs = append(g.Runs, ji)
 			}
 		}
+	}
+	if resourceLimited*20 > execs {
+		infra("%d of %d executions ran into the simulated heap's resource limit", resourceLimited, execs)
 	}
 	if buildFail > 0 {
 		infra("%d corpus programs did not build (toolchain trouble, not a C05 verdict)", buildFail)
@@ -437,6 +444,7 @@ func checkC05(tier string) int {
 		"terminated_normally":     normal,
 		"terminated_laufzeitfehler": rterr,
 		"timeouts":                timeouts,
+		"resource_limited":        resourceLimited,
 		"ledger_events_total":     events,
 		"realloc_moved":           moved,
 		"realloc_in_place":        inplace,
